@@ -56,13 +56,16 @@ def tasks(tier):
     nmax = 3 if tier == 'quick' else 4
     for n in range(0, nmax + 1):
         for logits in ('align', 'unalignable', 'absent', 'nocoords'):
-            t = {'mode': 'alto', 'n': n, 'logits': logits}
+            if tier == 'quick' and n == nmax and logits == 'nocoords':
+                continue
+            # frames: n + 1 in the quick tier (every strictly increasing alignment of n characters into n + 1 frames), 5 in the thorough tier
+            t = {'mode': 'alto', 'n': n, 'logits': logits, 'F': (n + 1 if tier == 'quick' else 5), 'grid': (1 if tier == 'quick' else 2)}
             if n >= 3:
                 t['split'] = 32
             ts.append(t)
     if tier != 'quick':
         for logits in ('unalignable', 'absent'):
-            ts.append({'mode': 'alto', 'n': 5, 'logits': logits, 'split': 64})
+            ts.append({'mode': 'alto', 'n': 5, 'logits': logits, 'F': 5, 'grid': 1, 'split': 64})
     ts.append({'mode': 'page', 'nr': 2})
     ts.append({'mode': 'page', 'nr': 1})
     ts.append({'mode': 'page', 'nr': 0})
@@ -151,7 +154,8 @@ def _is_int_text(s):
 def _run_alto(H, L, task):
     n, lmode = task['n'], task['logits']
     K = 'C06:alto:'
-    F = 5
+    F = task.get('F', 5)
+    GRID = task.get('grid', 2)
     cls = [z3.Int('cls_%d' % i) for i in range(n)]
     pos = [z3.Int('pos_%d' % i) for i in range(n)]
     conf = [z3.Real('conf_%d' % i) for i in range(n)]
@@ -165,7 +169,7 @@ def _run_alto(H, L, task):
     def case(m_, **kw):
         c = {'mode': 'alto', 'n': n, 'logits': lmode, 'text': state.get('text'), 'positions': [mv(m_, S(p)) for p in pos], 'conf': [mv(m_, S(c_)) for c_ in conf],
              'min_conf': mv(m_, S(minconf)), 'geo': {k: mv(m_, S(v)) for k, v in geo.items()}, 'heights': [mv(m_, S(h)) for h in hs],
-             'crop_columns': mv(m_, S(grid_w)), 'align_fails': state.get('align_fails')}
+             'crop_columns': mv(m_, S(grid_w)), 'align_fails': state.get('align_fails'), 'F': F}
         c.update(kw)
         return c
 
@@ -179,7 +183,7 @@ def _run_alto(H, L, task):
         state['text'] = text
         g = geo
         core.assume(z3.And(g['page_h'] > 0, g['page_w'] > 0, g['rx0'] <= g['rx1'], g['ry0'] <= g['ry1'], g['lx0'] <= g['lx1'], g['ly0'] <= g['ly1'],
-                           hs[0] > 0, hs[1] > 0, minconf >= 0, minconf <= 1, grid_w >= 0, grid_w <= 2))
+                           hs[0] > 0, hs[1] > 0, minconf >= 0, minconf <= 1, grid_w >= 0, grid_w <= GRID))
         for c_ in conf:
             core.assume(z3.And(c_ >= 0, c_ <= 1))
         pl = L.PageLayout(id='page 1.jpg', page_size=(S(g['page_h']), S(g['page_w'])))
